@@ -34,6 +34,7 @@ package scheduler
 //@ fn (*ExecutionGraph).node(g, id) (n)
 //@   props C01 C02
 //@   ensures n == g.dict[id]
+//@   ensures n == nil || allocated(n)
 
 //@ fn isReady(g, node) (ready)
 //@   props C01 C02
@@ -84,6 +85,7 @@ package scheduler
 //@ fn (*ExecutionGraph).Nodes(g) (r)
 //@   props C01 C02 C03 C04 C05 C15
 //@   ensures r == g.nodes
+//@   ensures r == nil || allocated(r)
 
 //@ fn (*ExecutionGraph).IsStarted(g) (r)
 //@   props C04
